@@ -4979,7 +4979,7 @@ class Frame(ContainerOperand):
         column_iloc = self._columns._loc_to_iloc(column_loc)
 
         if column_name is None:
-            column_name = tuple(self._columns.values[column_iloc])
+            column_name = tuple(self._columns[column_iloc])
 
         # index_labels = self._blocks._extract_array(column_key=column_iloc)
         index_labels = self._blocks._extract(column_key=column_iloc)
